@@ -1,3 +1,6 @@
 //! One oracle + classifier per property.
 pub mod common;
 pub mod c01;
+pub mod c02;
+pub mod c03;
+pub mod c04;
